@@ -17,6 +17,7 @@ mod keysim;
 mod worlda;
 mod loopsim;
 mod worldb;
+mod sysseam;
 mod wiresim;
 mod storesim;
 mod worlde;
